@@ -38,11 +38,9 @@ def step (i : Info) : Leaf → Info
     else i
   | _ => i
 
-/-- `ASF(fileobj).info`.  (Model/Container/Asf.lean marks a Header Extension Object inside a Header
-Extension Object as outside that model; the code raises ASFHeaderError("nested header extension").) -/
+/-- `ASF(fileobj).info` -/
 def parse (f : Bytes) : Except PyErr Info :=
   match parseFull f with
-  | .error .notImplemented => .error .mutagen
   | .error e => .error e
   | .ok objs => .ok ((leaves objs).foldl step init)
 
